@@ -1,5 +1,6 @@
 """Adversarial action programs for the rule-action harness (harness/impl_vmslot.cpp)."""
 NEXT, PUT_COPY, INSERT, DELETE, ASSOC, ATTR_SET, ATTR_SET_SLOT, PUSH_BYTE, RET_ZERO, POP_RET = 0x19, 0x1E, 0x1F, 0x20, 0x21, 0x23, 0x26, 0x01, 0x31, 0x30
+PUSH_LONG = 0x05
 ATT_TO, ADV_X, ATT_X = 2, 0, 3
 
 
@@ -18,7 +19,11 @@ def gen_rule(rng, nslots):
             rel = lambda: rng.randrange(-i, out_len - i) if out_len else 0
             if k < 0.30:                                     # attach to another slot of the window
                 off = rel()
-                bc += [PUSH_BYTE, off & 255, ATTR_SET_SLOT, ATT_TO]
+                if rng.random() < 0.06:                      # a slot reference at the edge of int32: the map offset is added to it
+                    v = rng.choice((0x7FFFFFFF, 0x7FFFFFFE, 0x7FFFFFFD, 0x80000000, 0x80000001, 0xFFFFFFFF))
+                    bc += [PUSH_LONG, v >> 24, (v >> 16) & 255, (v >> 8) & 255, v & 255, ATTR_SET_SLOT, ATT_TO]
+                else:
+                    bc += [PUSH_BYTE, off & 255, ATTR_SET_SLOT, ATT_TO]
             elif k < 0.42:
                 bc += [PUT_COPY, rel() & 255]
             elif k < 0.57:
